@@ -41,8 +41,9 @@ def harness(L, sw, ch, sr, K, mode, group):
     def path(e):
         D, data = byt.sym_audio(e, "D", bps)
         n = D.nsamples
-        B = I("B")
-        e.assume(z3.And(B >= 1, n <= K * B))
+        B, Bq, Br = I("B"), I("Bq"), I("Br")
+        # analysis window with quarter-sample resolution: aw = Bq/(4*rate), effective window B = floor(Bq/4) samples
+        e.assume(z3.And(Bq == 4 * B + Br, Br >= 0, Br < 4, B >= 1, n <= K * B))
         P = {1: I("min_length"), 2: I("max_length"), 3: I("mcs")}
         e.assume(z3.And(P[1] >= 1, P[1] <= P[2], P[3] >= 0, P[3] < P[2]))
         core._duration_to_nb_windows = lambda d, *a, **k: SymInt(P[d])
@@ -65,9 +66,9 @@ def harness(L, sw, ch, sr, K, mode, group):
         core.AudioEnergyValidator = RecValidator
         core.DataValidator.register(RecValidator)
         skw = dict(min_dur=1, max_dur=2, max_silence=3, drop_trailing_silence=bool(mode & 4), strict_min_dur=bool(mode & 2))
-        aw = SymRat(B, sr)
+        aw = SymRat(Bq, 4 * sr)
         meta = dict(sw=sw, ch=ch, sr=sr, K=K, mode=mode, group=group)
-        syms = dict(n=n, B=B, min_length=P[1], max_length=P[2], mcs=P[3])
+        syms = dict(n=n, B=B, Bq=Bq, min_length=P[1], max_length=P[2], mcs=P[3])
         conds = {}
         stage = "baseline"
         try:
@@ -91,6 +92,17 @@ def harness(L, sw, ch, sr, K, mode, group):
                 runs["stdin"] = list(core.split("-", sr=sr, sw=sw, ch=ch, analysis_window=aw, validator=mkval(), **skw))
                 for k_, r in runs.items():
                     conds[("same regions as raw bytes", k_)] = regions_equal(base, r)
+                # the same path rewritten with different audio of the same size: what is split is what the file holds now
+                stage = "rewritten file"
+                D2, data2 = byt.sym_audio(e, "E", bps, n=n, nonneg=False)
+                fs.files["in.wav"] = iostub.WavEntry(data2, sr, sw, ch)
+                fs.files["in.raw"] = iostub.RawEntry(data2)
+                base2 = list(core.split(data2, sampling_rate=sr, sample_width=sw, channels=ch, analysis_window=aw, validator=mkval(), **skw))
+                for lazy in (False, True):
+                    r_w = list(core.split("in.wav", analysis_window=aw, validator=mkval(), large_file=lazy, **skw))
+                    r_r = list(core.split("in.raw", sr=sr, sw=sw, ch=ch, analysis_window=aw, validator=mkval(), large_file=lazy, **skw))
+                    conds[("rewritten wav file, %s" % ("lazy" if lazy else "eager"), 0)] = regions_equal(base2, r_w)
+                    conds[("rewritten raw file, %s" % ("lazy" if lazy else "eager"), 0)] = regions_equal(base2, r_r)
             elif group == "aliases":
                 runs = {}
                 stage = "short-only"
@@ -102,12 +114,12 @@ def harness(L, sw, ch, sr, K, mode, group):
                 stage = "ch"
                 runs["ch"] = list(core.split(data, sampling_rate=sr, sample_width=sw, channels=ch, ch=ch + 1, analysis_window=aw, validator=mkval(), **skw))
                 stage = "aw"
-                runs["aw"] = list(core.split(data, sr=sr, sw=sw, ch=ch, analysis_window=aw, aw=SymRat(B + 1, sr), validator=mkval(), **skw))
+                runs["aw"] = list(core.split(data, sr=sr, sw=sw, ch=ch, analysis_window=aw, aw=SymRat(Bq + 4, 4 * sr), validator=mkval(), **skw))
                 stage = "val"
                 runs["val"] = list(core.split(data, sr=sr, sw=sw, ch=ch, analysis_window=aw, validator=mkval(), val=lambda f: False, **skw))
                 stage = "long=None"
                 runs["validator=None + val"] = None
-                runs["max_read=None + mr"] = list(core.split(data, sr=sr, sw=sw, ch=ch, analysis_window=aw, validator=mkval(), max_read=None, mr=SymRat(I("B"), 2 * sr), **skw))
+                runs["max_read=None + mr"] = list(core.split(data, sr=sr, sw=sw, ch=ch, analysis_window=aw, validator=mkval(), max_read=None, mr=SymRat(B, 2 * sr), **skw))
                 runs.pop("validator=None + val")
                 stage = "fmt"
                 runs["fmt"] = list(core.split("in.dat", analysis_window=aw, validator=mkval(), audio_format="wav", fmt="raw", **skw))
@@ -175,7 +187,8 @@ def replay_fn(c):
     from auditok import io as rio
     sw, ch, sr, B, n = c["sw"], c["ch"], c["sr"], c["B"], c["n"]
     bps = sw * ch
-    if int((B / sr) * sr) != B:
+    Bq = c.get("Bq", 4 * B)
+    if int((Bq / (4 * sr)) * sr) != B:
         return []
     data = byt.concrete_bytes(n * bps)
     tmp = tempfile.mkdtemp(prefix="sxv-c09-")
@@ -184,7 +197,7 @@ def replay_fn(c):
     old_stdin = sys.stdin
     rcore._duration_to_nb_windows = lambda d, *a, **k: {1: c["min_length"], 2: c["max_length"], 3: c["mcs"]}[d]
     skw = dict(min_dur=1, max_dur=2, max_silence=3, drop_trailing_silence=bool(c["mode"] & 4), strict_min_dur=bool(c["mode"] & 2))
-    aw = B / sr
+    aw = Bq / (4 * sr)
 
     def val():
         calls = []
@@ -243,7 +256,7 @@ def replay_fn(c):
             runs["sampling_rate and sr"] = lambda: ak.split(data, sampling_rate=sr, sr=sr + 1, sample_width=sw, channels=ch, analysis_window=aw, validator=val(), **skw)
             runs["sample_width and sw"] = lambda: ak.split(data, sampling_rate=sr, sample_width=sw, sw=(4 if sw != 4 else 2), channels=ch, analysis_window=aw, validator=val(), **skw)
             runs["channels and ch"] = lambda: ak.split(data, sampling_rate=sr, sample_width=sw, channels=ch, ch=ch + 1, analysis_window=aw, validator=val(), **skw)
-            runs["analysis_window and aw"] = lambda: ak.split(data, sr=sr, sw=sw, ch=ch, analysis_window=aw, aw=(B + 1) / sr, validator=val(), **skw)
+            runs["analysis_window and aw"] = lambda: ak.split(data, sr=sr, sw=sw, ch=ch, analysis_window=aw, aw=(Bq + 4) / (4 * sr), validator=val(), **skw)
             runs["validator and val"] = lambda: ak.split(data, sr=sr, sw=sw, ch=ch, analysis_window=aw, validator=val(), val=lambda f: False, **skw)
             runs["audio_format and fmt"] = lambda: ak.split(dat, analysis_window=aw, validator=val(), audio_format="wav", fmt="raw", **skw)
             runs["fmt only"] = lambda: ak.split(dat, analysis_window=aw, validator=val(), fmt="wav", **skw)
@@ -263,10 +276,24 @@ def replay_fn(c):
             runs["max_read and mr"] = lambda: ak.split(data, sr=sr, sw=sw, ch=ch, analysis_window=aw, validator=val(), max_read=mr, mr=mr + 2 / sr, **skw)
             runs["max_read on a lazy wav file"] = lambda: ak.split(wav, analysis_window=aw, validator=val(), max_read=mr, large_file=True, **skw)
             desc += ", max_read=%r (%d samples)" % (mr, M)
+        if c["group"] == "containers":
+            def rewritten():
+                data2 = byt.concrete_bytes(n * bps, tag=7)
+                with _wave.open(wav, "wb") as w:
+                    w.setframerate(sr)
+                    w.setsampwidth(sw)
+                    w.setnchannels(ch)
+                    w.writeframes(data2)
+                want2 = sig(ak.split(data2, sr=sr, sw=sw, ch=ch, analysis_window=aw, validator=val(), **skw))
+                got2 = sig(ak.split(wav, analysis_window=aw, validator=val(), **skw))
+                # report in terms of the reference of the first audio so that the common comparison below flags a difference
+                return base if got2 == want2 else [("stale", 0, b"")]
+            runs["wav file rewritten with other audio of the same size (eager)"] = rewritten
         for name, fn in runs.items():
             del seen[:]
             try:
-                got = sig(fn())
+                got = fn()
+                got = got if isinstance(got, list) and (not got or isinstance(got[0], tuple)) else sig(got)
             except Exception as ex:
                 return [("C09: split through '%s' raises %s" % (name, type(ex).__name__), desc + ": %s" % ex)]
             if got != base:
@@ -294,6 +321,7 @@ def replay(c):
 
 
 def run(rep):
+    tok.VALIDATE[0] = replay_fn
     b = BOUNDS[rep.tier]
     L = loader.load()
     rep.hashes = L.hashes
